@@ -183,8 +183,8 @@ Proof.
   assert (Hil : i < length (hinv h)) by (rewrite Hlen; apply nth_error_Some; congruence).
   assert (Hok' : cok m' t').
   { pose proof (thread_cok _ i t' HC') as H0. cbn [cths cmp] in H0. apply H0. rewrite (nth_error_upd _ i t t' i Hi), Nat.eqb_refl. reflexivity. }
-  destruct Hk as [Ec El Em Ec' Ep' Eh' Es' | cl Ec Hret El Em Ec' Eb' Elog | cl Ec Hret El Ec' Ep' Eh' Es' Em
-                 | cl md Ec Hret Hn El Em Ec' Ep' Eh' Es' Hw | cl md Ec Hret Hn El Em Ec' Ep' Ef' Eh' Es'].
+  destruct Hk as [Ec El Em Ec' Ep' Eh' Es' Elg | cl Ec Hret El Em Ec' Eb' Elog | cl Ec Hret El Ec' Ep' Eh' Es' Em Elg
+                 | cl md Ec Hret Hn El Em Ec' Ep' Eh' Es' Hw Elg | cl md Ec Hret Hn El Em Ec' Ep' Ef' Eh' Es' Elg].
   - (* ---- invocation *)
     rewrite Ec. exists L. split; auto. subst l' m'.
     assert (P2 : phase2 t = false) by (unfold phase2; rewrite Ec; reflexivity).
